@@ -581,3 +581,56 @@ pub fn pino_calculate_liquidity_token_deltas(
 
     Ok((delta_a, delta_b))
 }
+
+// verification hooks (feature `verif` only): public wrappers around private helpers
+#[cfg(feature = "verif")]
+pub fn verif_pino_next_whirlpool_reward_growth_global(
+    whirlpool: &MemoryMappedWhirlpool,
+    next_timestamp: u64,
+) -> Result<[u128; NUM_REWARDS]> {
+    pino_next_whirlpool_reward_growth_global(whirlpool, next_timestamp)
+}
+
+#[cfg(feature = "verif")]
+pub fn verif_pino_next_whirlpool_liquidity(
+    whirlpool: &MemoryMappedWhirlpool,
+    tick_upper_index: i32,
+    tick_lower_index: i32,
+    liquidity_delta: i128,
+) -> Result<u128> {
+    pino_next_whirlpool_liquidity(whirlpool, tick_upper_index, tick_lower_index, liquidity_delta)
+}
+
+#[cfg(feature = "verif")]
+pub fn verif_pino_next_position_modify_liquidity_update(
+    position: &MemoryMappedPosition,
+    liquidity_delta: i128,
+    fee_growth_inside_a: u128,
+    fee_growth_inside_b: u128,
+    reward_growths_inside: &[u128; NUM_REWARDS],
+) -> Result<PositionUpdate> {
+    pino_next_position_modify_liquidity_update(
+        position,
+        liquidity_delta,
+        fee_growth_inside_a,
+        fee_growth_inside_b,
+        reward_growths_inside,
+    )
+}
+
+#[cfg(feature = "verif")]
+pub fn verif_pino_calculate_modify_tick_array(
+    position: &MemoryMappedPosition,
+    position_update: &PositionUpdate,
+    is_variable_size_tick_array: bool,
+    tick: &MemoryMappedTick,
+    tick_update: &TickUpdate,
+) -> Result<TickArrayUpdate> {
+    pino_calculate_modify_tick_array(
+        position,
+        position_update,
+        is_variable_size_tick_array,
+        tick,
+        tick_update,
+    )
+}
